@@ -190,7 +190,8 @@ class Initialize(Contract):
     qualname = HVQ + "._initialize"
     # the installed name -> column maps are what every later step() looks names up in: a stale map makes a member of
     # the action space raise KeyError (C10)
-    tags = {"": ("C09", "C19", "C01", "C08", "C10")}
+    # ... and makes the trajectory depend on what ran earlier in the process (C14)
+    tags = {"": ("C09", "C19", "C01", "C08", "C10", "C14")}
 
     def setup(self, I, variant):
         sig = V.Sigma(concrete=I.ext_state.get("concrete"))
@@ -240,7 +241,7 @@ def vec_after(sig, i, old, c):
 
 class _CfgLoop(LoopContract):
     qualname = HVQ + ".vectorize"
-    tags = ("C09",)
+    tags = ("C09", "C05")
     which = None     # (start attr of Layout, config fn name)
 
     def snapshot(self, I, fr, seq):
@@ -286,7 +287,8 @@ class Vectorize(Contract):
     global_writes_allowed = (HVQ,)
     qualname = HVQ + ".vectorize"
     optional_params_modelled = ("vector",)       # both call shapes are verified (variants fresh-vector / given-row)
-    tags = {"": ("C09", "C19", "C04", "C01", "C08")}      # tensorize's C01 / C08 clauses rest on the row this writes
+    # the value / discovery-value cells it writes are what rewards are paid from (C05)
+    tags = {"": ("C09", "C19", "C04", "C01", "C08", "C05")}      # tensorize's C01 / C08 clauses rest on the row this writes
 
     def modifies(self, I, S):
         v = S.extra.get("vec")
@@ -437,7 +439,7 @@ class TensorizeLoop(LoopContract):
 class Tensorize(Contract):
     global_writes_allowed = (HVQ,)
     qualname = "nasim.envs.state.State.tensorize"
-    tags = {"": ("C09", "C04", "C19", "C01", "C08")}
+    tags = {"": ("C09", "C04", "C19", "C01", "C08", "C05")}
 
     def setup(self, I, variant):
         sig = V.Sigma(concrete=I.ext_state.get("concrete"))
@@ -489,7 +491,7 @@ class Tensorize(Contract):
 class GenerateInitialState(Contract):
     global_writes_allowed = (HVQ,)
     qualname = "nasim.envs.state.State.generate_initial_state"
-    tags = {"": ("C09", "C04", "C19", "C01", "C10")}
+    tags = {"": ("C09", "C04", "C19", "C01", "C10", "C14")}
 
     def setup(self, I, variant):
         sig = V.Sigma(concrete=I.ext_state.get("concrete"))
